@@ -1,9 +1,10 @@
-(* C15  PPOPRF public keys and proofs survive their binary form; size limits.  (JSON forms of points and
-   evaluations are produced by serde_json and are checked by a round trip against the Rust on every run;
-   the JSON grammar is not modelled.)  Statements only. *)
+(* C15  PPOPRF public keys and proofs survive their binary form, points and evaluations their JSON form; size
+   limits.  The JSON decoder modelled is the canonical grammar only (exactly what serde_json writes); the Rust
+   accepts more (whitespace, key order, a missing proof member), so the claim is one-directional there: what
+   the model accepts, the Rust accepts with the same value (checked on every run).  Statements only. *)
 From Coq Require Import ZArith NArith List Sorted.
 Import ListNotations.
-From StarV Require Import Params Bytes Strobe Ggm Ppoprf PpFacts.
+From StarV Require Import Params Bytes Strobe Ggm Ppoprf PpFacts JsonFacts.
 Open Scope Z_scope.
 
 Theorem C15_pk_roundtrip : forall pk : pubkey, pk_wf pk -> pk_from_bincode (pk_to_bincode pk) = inr pk.
@@ -23,3 +24,13 @@ Theorem C15_pk_fits : forall pk : pubkey,
   Forall (fun e => length (snd e) = 32%nat) (pk_md pk) -> length (pk_base pk) = 32%nat -> (length (pk_md pk) <= 256)%nat ->
   (N.of_nat (length (pk_to_bincode pk)) <= 8488)%N /\ (8488 <= Params.max_serialized_pk_size)%N.
 Proof. exact pk_fits. Qed.
+
+(* JSON forms: parsing what is written gives the value back, for every point and every evaluation with or
+   without proof *)
+Theorem C15_json_point_roundtrip : forall l : bytes, length l = 32%nat -> wf l -> json_point_decode (json_array l) = Some l.
+Proof. exact json_point_roundtrip. Qed.
+Theorem C15_json_evaluation_roundtrip : forall (out : bytes) (pr : option proof),
+  length out = 32%nat -> wf out ->
+  match pr with Some p => 0 <= pr_c p < ell /\ 0 <= pr_s p < ell | None => True end ->
+  json_evaluation_decode (json_evaluation out pr) = Some (out, pr).
+Proof. exact json_evaluation_roundtrip. Qed.
